@@ -5,6 +5,7 @@
 import HealSparse.Model.Api
 import HealSparse.Model.Valid
 import HealSparse.Model.PackedDispatch
+import HealSparse.Generated.OpsTable
 import HealSparse.Model.Text
 namespace HS
 
@@ -182,6 +183,28 @@ def stepArgs (w : World) (op : String) (a : Args) : World × String :=
       | .wide n => "wide:" ++ toString n
       | .recd fs pr => "rec:" ++ ",".intercalate (fs.map dts) ++ ":" ++ toString pr
     (w, s!"kind={k} covord={m.covord} spord={m.spord} sentinel={showVal m.sent}")
+  | "mop" =>
+    let names := splitList (a.getD "maps" "_")
+    match names.mapM w.get? with
+    | none => (w, "bad-op:no-such-map")
+    | some maps =>
+      let nm := a.getD "name" ""
+      let code := (maps.head?.map (·.kind.code)).getD ""
+      let row? : Option OpRow :=
+        if nm == "ufunc_union" || nm == "ufunc_intersection" then
+          ((a.get? "filler").bind parseVal).map fun fv =>
+            { name := nm, ufunc := a.getD "ufunc" "", dt := code, filler := fv,
+              promoted := (if code == "u1w" then "u1" else code), union := nm == "ufunc_union",
+              intOnly := false, fillFirst := false, dtypeOut := "" }
+        else opsTable.find? fun r => r.name == nm && r.dt == code
+      match row? with
+      | none =>
+        -- no row: the first map is of a kind the wrappers themselves reject / cannot handle
+        (w, if maps.length < 2 then errLine .runtime else errLine .notImpl)
+      | some row =>
+        match apiMultiOp row maps with
+        | .ok m => (w.put (a.getD "r" "tmp") m, "ok")
+        | .error e => (w, errLine e)
   | "vals" => withMap w a fun m => (w, showVals ((List.range m.npix).map m.abs))
   | "get" => withMap w a fun m =>
     let pix? : Option (List Nat) :=
